@@ -110,7 +110,9 @@ print(json.dumps(out))
 '''
 
 EXTENSION_SETS = {
-    'TocRenderer': {'__init__', 'toc', 'render_heading', 'parse_rendered_heading'},
+    # render_document: resets the collected headings and returns the inherited rendering (under contract:
+    # TocRenderer.render_document)
+    'TocRenderer': {'__init__', 'toc', 'render_heading', 'parse_rendered_heading', 'render_document'},
     'GithubWikiRenderer': {'__init__', 'render_github_wiki'},
     'MathJaxRenderer': {'__init__', 'mathjax_src', 'render_math', 'render_document', 'packages', 'render_packages',
                         'verb_delimiters'},
